@@ -114,8 +114,56 @@ def mk_rsa(p, s, k):
 
 
 # =========================================================================================== C10
+def ctr_limit_case(c, rng, s, hk, key):
+    """AES-CTR with a narrow counter that is about to wrap: exactly the remaining blocks are allowed (and equal the
+    reference), one byte more is refused - under every crypto backend"""
+    p = c.p
+    bits = rng.choice([8, 8, 12, 16])
+    remaining = rng.randint(1, 4)
+    pre = bytes(rng.randrange(256) for _ in range(16))
+    cval = (int.from_bytes(pre, 'big') & ~((1 << bits) - 1)) | ((1 << bits) - remaining)
+    cb = cval.to_bytes(16, 'big')
+    mech = '0x1086:ctr:%d:%s' % (bits, cb.hex())
+    pt = bytes(rng.randrange(256) for _ in range(remaining * 16))
+    ref = R.ctr(key, cb, pt, bits)
+    how = rng.choice(['single', 'multi'])
+    if p.rv('encinit %s %s %s' % (s, mech, hk)) != 0:
+        return
+    if how == 'single':
+        rv, out = c.out('enc %s %s %d' % (s, hx(pt), len(pt) + 32))
+    else:
+        out = b''
+        rv = 0
+        for part in parts_of(rng, pt):
+            rv, o = c.out('encupd %s %s %d' % (s, hx(part), len(part) + 32))
+            out += o
+            if rv != 0:
+                break
+        if rv == 0:
+            rv, o = c.out('encfin %s 64' % s)
+            out += o
+    if rv != 0 or out != ref:
+        c.bad('ctr (%d counter bits, %d blocks left before the counter wraps): %s encryption of exactly that many blocks fails or differs from the reference (rv=0x%x)' % (bits, remaining, how, rv))
+        return
+    if rv == 0 and how == 'multi':
+        pass
+    # one block too many must be refused
+    if p.rv('encinit %s %s %s' % (s, mech, hk)) == 0:
+        rv, out = c.out('enc %s %s %d' % (s, hx(pt + b'\x00'), len(pt) + 48))
+        if rv == 0:
+            c.bad('ctr (%d counter bits): encrypting beyond the counter range is accepted' % bits)
+        else:
+            p.op('encfin %s 64' % s)
+    if p.rv('decinit %s %s %s' % (s, mech, hk)) == 0:
+        rv, o = c.out('dec %s %s %d' % (s, hx(ref), len(ref) + 32))
+        if rv != 0 or o != pt:
+            c.bad('ctr (%d counter bits, %d blocks left): decryption of exactly that many blocks fails or differs (rv=0x%x)' % (bits, remaining, rv))
+
+
 def sym_case(c, rng, s, hk, key):
     p = c.p
+    if rng.random() < 0.12:
+        return ctr_limit_case(c, rng, s, hk, key)
     mode = rng.choice(['ecb', 'cbc', 'cbcpad', 'ctr', 'gcm'])
     L = rng.choice([0, 1, 15, 16, 17, 31, 32, 33, 48, 64, rng.randint(0, 70)])
     if mode in ('ecb', 'cbc'):
